@@ -155,19 +155,29 @@ def readAll (X : Cipher) : Stream → List Bytes → Bytes × Stream
     let (rest, s2) := readAll X s1 cs
     (p ++ rest, s2)
 
-/-- One `Obfuscated2.Read`: the connection delivered `chunk`, possibly together with an error
-(`failed`; e.g. the last bytes with `io.EOF`).  The repaired code decrypts whatever was delivered; the
-pinned code returned early on an error, handing the ciphertext back (fact `readDecryptsWithError`). -/
-def readOne (X : Cipher) (s : Stream) (chunk : Bytes) (failed : Bool) : Bytes × Stream :=
-  if failed ∧ ¬ Facts.C18.readDecryptsWithError then (chunk, s) else s.xor X chunk
+/-- What came with the bytes of one underlying `Read`. -/
+inductive RdErr where
+  | none | eof | other
+  deriving Repr, DecidableEq
 
-/-- `readAll` where the last chunk arrives together with an error iff `errLast`. -/
-def readAllE (X : Cipher) (errLast : Bool) : Stream → List Bytes → Bytes × Stream
+/-- One `Obfuscated2.Read`: the connection delivered `chunk`, possibly together with an error (the last
+bytes with `io.EOF`, or some bytes with another error such as a deadline).  The repaired code decrypts
+whatever was delivered; `Facts.C18.readSkipsDecryptOn` says on which errors the current source returns
+before `XORKeyStream` (0 never, 1 non-EOF errors, 2 any error) — then the ciphertext is handed back and
+the keystream is not advanced. -/
+def readOne (X : Cipher) (s : Stream) (chunk : Bytes) (e : RdErr) : Bytes × Stream :=
+  let skips := match e with
+    | .none => false
+    | .eof => Facts.C18.readSkipsDecryptOn ≥ 2
+    | .other => Facts.C18.readSkipsDecryptOn ≥ 1
+  if skips then (chunk, s) else s.xor X chunk
+
+/-- `readAll` where chunk `i` arrives together with the error `errs i` (none beyond the list). -/
+def readAllE (X : Cipher) : Stream → List (Bytes × RdErr) → Bytes × Stream
   | s, [] => ([], s)
-  | s, [c] => readOne X s c errLast
-  | s, c :: cs =>
-    let (p, s1) := readOne X s c false
-    let (rest, s2) := readAllE X errLast s1 cs
+  | s, (c, e) :: cs =>
+    let (p, s1) := readOne X s c e
+    let (rest, s2) := readAllE X s1 cs
     (p ++ rest, s2)
 
 end TdModel.C18
